@@ -71,6 +71,28 @@ class Extractor:
                     return Val(base.T.then(Fst.rstrip(self.A, args[0])))
                 raise FstError(f'string method {f.attr}')
             raise FstError('call')
+        if isinstance(e, ast.Subscript) and isinstance(e.slice, ast.Slice) and e.slice.step is None:
+            x = self.eval(e.value)
+            if x.T is None:
+                raise FstError('slice of untracked value')
+
+            def bound(b):
+                if b is None:
+                    return None
+                if isinstance(b, ast.Constant) and isinstance(b.value, int):
+                    return b.value
+                if isinstance(b, ast.UnaryOp) and isinstance(b.op, ast.USub) and isinstance(b.operand, ast.Constant):
+                    return -b.operand.value
+                raise FstError('slice bound')
+            lo, hi = bound(e.slice.lower), bound(e.slice.upper)
+            T = x.T
+            if lo not in (None, 0, 1) or hi not in (None, -1):
+                raise FstError(f'slice [{lo}:{hi}]')
+            if lo == 1:
+                T = T.then(Fst.drop_first(self.A))
+            if hi == -1:
+                T = T.then(Fst.drop_last(self.A))
+            return Val(T)
         if isinstance(e, ast.JoinedStr):
             tracked = None
             pre, suf = '', ''
